@@ -194,6 +194,7 @@ int main()
     }
     Option_VarioFit optvar(noReduce, authAniso, authRot, lockSame);
     Model* model = new Model(nvar, ndim);
+    if (getenv("VERIF_DEBUG")) { fprintf(stderr, "before-fit ic=%ld shape=%d nech=%d nvar=%d ndir=%d aniso=%d rot=%d same=%d noreduce=%d types:", ic, shape, nech, nvar, ndir, (int)authAniso, (int)authRot, (int)lockSame, (int)noReduce); for (auto& t : types) fprintf(stderr, " %s", std::string(t.getKey()).c_str()); fprintf(stderr, " cons:"); for (auto& c : mine) fprintf(stderr, " [%c elem%d cov%d iv1=%d b=%g]", c.kind, c.elem.getValue(), c.icov, c.iv1, c.bound); fprintf(stderr, "\n"); fflush(stderr); }
     int err = model->fit(vario, types, cons, optvar);
     st.hit(err == 0 ? "fit_success" : "fit_refused");
     st.hit("shape_" + std::to_string(shape));
